@@ -16,9 +16,12 @@ EventOK(e) ==
           /\ PosBound(e.in.pos, e.obs.pos, Len(e.in.buf))
           /\ AllocBound(e.alloc, Len(e.in.buf))
           /\ FObsOK(e.obs, EntryExpect(e.name, e.in.buf, e.in.pos))                       \* and what it returns is what the model allows
+     [] e.fam = "probe" ->                                                                 \* the same through Decoder::probe()
+          /\ e.obs.p \in {"ok", "err"} /\ PosBound(e.in.pos, e.obs.pos, Len(e.in.buf)) /\ AllocBound(e.alloc, Len(e.in.buf))
+          /\ FObsOK(e.obs, EntryExpect(e.name, e.in.buf, e.in.pos)) /\ e.obs.opos = e.in.pos
      [] e.fam = "typed" /\ e.name = "mut" ->
           e.obs.p = "run" /\ e.obs.pos <= Len(e.buf) /\ AllocBound(e.obs.alloc, Len(e.buf))
-     [] e.fam = "tokcount"  -> e.obs.p = "run" /\ e.obs.count <= Len(e.in.buf)
+     [] e.fam = "tokcount"  -> e.obs.p = "run" /\ e.obs.count <= Len(e.in.buf) /\ e.obs.bcount <= Len(e.in.buf)   \* (owning tokenizer; Decoder::tokens())
      [] e.fam = "dispbound" -> e.obs.p = "run" /\ ~e.obs.overflow /\ e.obs.n <= 32 * Len(e.in.buf) + 256
      [] e.fam = "drop" ->
           /\ e.obs.p = "run" /\ NoDup(e.obs.created) /\ NoDup(e.obs.before \o e.obs.after)
